@@ -107,12 +107,20 @@ func (hs *hasher) walk(v reflect.Value) {
 		hs.tag("slice")
 		n := v.Len()
 		hs.u64(uint64(n))
+		// the spare capacity behind len is shared memory too: an append in place
+		// on a slice of the shared font writes there without changing len
+		full := v
+		if v.Cap() > n {
+			full = v.Slice(0, v.Cap())
+			hs.tag("cap")
+			hs.u64(uint64(v.Cap()))
+		}
 		if v.Type().Elem().Kind() == reflect.Uint8 {
-			hs.h.Write(v.Bytes())
+			hs.h.Write(full.Bytes())
 			return
 		}
-		for i := 0; i < n; i++ {
-			hs.walk(v.Index(i))
+		for i := 0; i < full.Len(); i++ {
+			hs.walk(full.Index(i))
 		}
 	case reflect.Array:
 		v = addressable(v)
